@@ -690,6 +690,13 @@ Definition api_add (c : cfg) (s : st) (name : string) : st * res :=
 
 (* --- remove *)
 
+(* w.register([]int{wd}, unix.EV_DELETE, 0) with its error: on failure the kernel state is what it was *)
+Definition evdelete_err (k : kernel) (fd : N) : kernel * option err :=
+  match sys_evdelete k fd with
+  | Some k1 => (k1, None)
+  | None => (k, Some (EOs ENOENT))
+  end.
+
 Fixpoint remove_core (fuel : nat) (s : st) (name : string) (unwatchFiles : bool) : st * option err :=
   match fuel with
   | O => (s, Some ErrFuel)
@@ -698,16 +705,15 @@ Fixpoint remove_core (fuel : nat) (s : st) (name : string) (unwatchFiles : bool)
       match tb_byPath (T s) name with
       | None => (s, Some ErrNonExistentWatch)
       | Some (fd, _) =>
-          match sys_evdelete (K s) fd with
-          | None => (s, Some (EOs ENOENT))
-          | Some k1 =>
-              let k2 := sys_close k1 fd in
-              let '(t1, isdir) := tb_remove (T s) fd name in
-              let s1 := set_T (fun _ => t1) (set_K (fun _ => k2) s) in
-              if unwatchFiles && isdir then
-                (fold_left (fun s child => fst (remove_core fuel' s child true)) (tb_watchesInDir t1 name) s1, None)
-              else (s1, None)
-          end
+          (* the error of kevent(EV_DELETE) does not end the function: the descriptor is closed, the tables are
+             updated and the entries are removed in every case, and that error is what is returned at the end *)
+          let '(k1, r) := evdelete_err (K s) fd in
+          let k2 := sys_close k1 fd in
+          let '(t1, isdir) := tb_remove (T s) fd name in
+          let s1 := set_T (fun _ => t1) (set_K (fun _ => k2) s) in
+          if unwatchFiles && isdir then
+            (fold_left (fun s child => fst (remove_core fuel' s child true)) (tb_watchesInDir t1 name) s1, r)
+          else (s1, r)
       end
   end.
 
